@@ -425,6 +425,7 @@ func checkC09(c *Ctx, r *Report) {
 	r.rule("C09.R2", "every request-reachable Lock is released on every return path (explicitly or by defer)", 4)
 	r.rule("C09.R3", "lock-order graph acyclic; no self re-acquisition", 1)
 	r.rule("C09.R5", "after LoadOrStore on the subscriber pool the request goes on with the context that is in the pool, not with the one it offered", 1)
+	r.rule("C09.R6", "no request removes or replaces a subscriber context in the pool: a request that already fetched the context would go on with an orphan (shared with C01.R5/C10.R5)", 1)
 	r.rule("C09.R4", "no check-then-act on the subscriber pool without a lock (LoadOrStore or one held lock)", 1)
 
 	sa := newSharedAnalysis(c)
@@ -490,6 +491,7 @@ func checkC09(c *Ctx, r *Report) {
 
 	// ---- R4 check-then-act on the pool
 	checkPoolAtomicity(c, r, sa, "C09.R4")
+	checkPoolLifetime(c, r, "C09.R6", "a create of the same subscriber that is in flight has fetched the context already; it registers its session in the orphaned object and is answered 201, and no serial order of the two requests explains that the acknowledged session can be neither updated nor released")
 	checkPoolWinner(c, r, "C09.R5")
 }
 
